@@ -42,13 +42,14 @@ struct Scenario {
   std::vector<std::string> pre;  // ready | getc | wait
   std::string fin;               // attach_inline | attach_exec | drop | get_move | connect
   std::string impl;              // which API form realises `fin`
+  std::string pform = "scope";   // how a dropped promise goes away: scope exit | move-assignment of an empty Promise over it
   std::string Header() const {
     std::string p = "-";
     if (!pre.empty()) {
       p.clear();
       for (auto& x : pre) p += (p.empty() ? "" : ",") + x;
     }
-    return "unique prod=" + prod + " pre=" + p + " fin=" + fin + " impl=" + impl;
+    return "unique prod=" + prod + " pre=" + p + " fin=" + fin + " impl=" + impl + (pform == "scope" ? "" : " pform=" + pform);
   }
 };
 
@@ -76,6 +77,8 @@ void RunScenario(const Scenario& sc) {
       std::move(p).Set(yaclib::StopTag{});
     } else if (sc.prod == "set:exc") {
       std::move(p).Set(std::make_exception_ptr(std::runtime_error{"x"}));
+    } else if (sc.pform == "assign") {
+      p = yaclib::Promise<int>{};  // the valid promise is dropped by move-assignment (the old core must still be released properly)
     } else {
       auto dropped = std::move(p);  // destroyed here while valid
     }
@@ -107,6 +110,8 @@ void RunScenario(const Scenario& sc) {
       std::move(f).Detach(exec, cont);
     } else if (sc.impl == "dtor") {
       auto dropped = std::move(f);
+    } else if (sc.impl == "assign") {
+      f = yaclib::Future<int>{};  // the valid future is dropped by move-assignment
     } else if (sc.impl == "detach") {
       std::move(f).Detach();
     } else if (sc.impl == "get_move") {
@@ -173,6 +178,7 @@ std::vector<Scenario> AllScenarios(bool big) {
   struct F { const char* fin; const char* impl; };
   const F fins[] = {{"attach_inline", "then_inline"}, {"attach_inline", "detach_inline"}, {"attach_exec", "then_exec"},
                     {"attach_exec", "detach_exec"},   {"drop", "dtor"},                  {"drop", "detach"},
+                    {"drop", "assign"},
                     {"get_move", "get_move"},         {"connect", "connect"}};
   std::vector<std::vector<std::string>> pres = {{}, {"ready"}, {"getc"}, {"wait"}, {"ready", "getc", "ready"},
                                                 {"wait", "ready", "getc"}, {"getc", "wait", "getc"}};
@@ -190,7 +196,10 @@ std::vector<Scenario> AllScenarios(bool big) {
   }
   for (auto* p : prods)
     for (auto& f : fins)
-      for (auto& pre : pres) out.push_back(Scenario{p, pre, f.fin, f.impl});
+      for (auto& pre : pres) {
+        out.push_back(Scenario{p, pre, f.fin, f.impl});
+        if (std::string(p) == "drop") out.push_back(Scenario{p, pre, f.fin, f.impl, "assign"});
+      }
   return out;
 }
 
